@@ -9,8 +9,8 @@ CORR_MODULES = ["Xcdr.XcdrCorr"]
 PREFIX = "C09"
 CASE_TYPE = "C09_case"
 HARNESS = "c09"
-KNOWN = {1: "C09-char8-utf8", 2: "C09-float128-xcdr1-align", 3: "C09-xcdr1-optional-rewind",
-         4: "C09-stage3-mutable-union"}
+# classes 1 (C09-char8-utf8) and 2 (C09-float128-xcdr1-align) were repaired in /repo (c6ffb24, 0b5427b)
+KNOWN = {3: "C09-xcdr1-optional-rewind", 4: "C09-stage3-mutable-union"}
 RULE = ("one case = a run-time built DynamicType + DynamicData serialized by the real serializer "
         "(XCDR1/XCDR2 x LE/BE) and the produced bytes deserialized by the real deserializer; bytes and decoded "
         "value are compared with the Coq encoder/decoder, the round-trip oracle is applied to the implementation's "
@@ -21,6 +21,8 @@ TRUSTED = ["theories/Xcdr/XcdrModel.v is a hand transcription of xtypes/serializ
            "serializer.rs/deserializer.rs are pub(crate): the harness compiles the two unchanged source files of "
            "/repo into the harness binary via #[path] against the public dust_dds::xtypes API"]
 ASSUMPTIONS = ["floats are compared as raw bits (DataStorage's PartialEq makes NaN != NaN)",
+               "a char8 value is one octet 0..255 (ISO 8859-1): DataStorage::Char8 holds a Rust char, the serializer "
+               "truncates a char above U+00FF to its low byte; such values are outside `wt` (generated as ill-typed cases)",
                "collections and strings are shorter than 2^32 (the u32 length fields)",
                "member ids are distinct within a type; union case ids are > 0 (id 0 is the discriminator)",
                "types are limited to what the code implements: BITMASK, BITSET, MAP, CHAR16, ALIAS, ANNOTATION and "
@@ -46,7 +48,8 @@ def rprim(r, sk, ascii_only=False):
     if sk == "c8":
         if ascii_only or r.random() < 0.93:
             return r.choice([0, 1, 65, 97, 126, 127]) if r.random() < 0.5 else r.randint(0, 127)
-        return r.choice([128, 233, 255, 256, 0x20AC, 0xD7FF, 0xE000, 0x1F600, 0x10FFFF])
+        # 128..255 are char8 values; above U+00FF the value is ill-typed (truncated by the serializer)
+        return r.choice([128, 233, 255, 200, 254, 256, 0x20AC, 0x1F600])
     lo, hi = RANGE[sk]
     k = r.random()
     if k < 0.35:
@@ -329,9 +332,9 @@ def misparse_prone(ver, t, v):
     zero-progress elements makes the real code spin for 2^32 iterations"""
     if stage_of(t) == 3:
         return True
-    if ver == 1 and anyt(lambda x: x == ("p", "f128") or (x[0] == "S" and any(m[1] & 1 for m in x[2])), t):
+    if ver == 1 and anyt(lambda x: x[0] == "S" and any(m[1] & 1 for m in x[2]), t):
         return True
-    return anyt(lambda x: x == ("p", "c8"), t)
+    return False
 
 
 def risky(ver, t, v):
@@ -382,6 +385,7 @@ def corpus():
     P = lambda k: ("p", k)
     pv = lambda k, x: ("p", k, x)
     out = []
+    # regression cases of the two repaired defects (c6ffb24 char8, 0b5427b float128), then the
     # minimal witnesses of the recorded findings
     out.append(("rt", 1, "le", S("F", [(0, 0, P("u64")), (1, 0, P("f128"))]), ("d", [(0, pv("u64", 7)), (1, pv("f128", 9))])))
     out.append(("rt", 1, "le", S("F", [(0, 0, P("c8")), (1, 0, P("u8"))]), ("d", [(0, pv("c8", 233)), (1, pv("u8", 9))])))
@@ -716,9 +720,9 @@ MANIFEST = {
     "text": ("Machine-checked proof (Coq) over a rule-by-rule model of serializer.rs / deserializer.rs: for every "
              "well-formed type of stage S1 (all primitives, string, wstring, enumerations, sequences, arrays, nested FINAL "
              "structures) and S2 (plus APPENDABLE structures with DHEADER and optional members) and every well-typed "
-             "value, decode(encode v) = v for XCDR1 and XCDR2 in both byte orders, outside three recorded defect "
-             "classes (char8 >= 0x80, float128 in XCDR1, optional members in XCDR1), each with a machine-checked "
-             "witness; the encapsulation header records the padding count and the total length is a multiple of 4. "
+             "value, decode(encode v) = v for XCDR1 and XCDR2 in both byte orders, outside one recorded defect "
+             "class (optional members in XCDR1; two earlier classes, char8 >= 0x80 and float128 in XCDR1, were "
+             "repaired in /repo), with a machine-checked witness; the encapsulation header records the padding count and the total length is a multiple of 4. "
              "Stage S3 (MUTABLE structures, unions) is refuted on the unchanged code by witnesses (EMHEADER length "
              "code 5 on primitive sequences, nested mutable types not skipped in XCDR2, XCDR1 parameter alignment "
              "origin, appendable unions) and stays a partial statement. The model is tied to the code by running the "
